@@ -55,7 +55,7 @@ TAB_CONSTS = {
               'Partitions': '{<<1,2,3,4>>, <<1,1,2,3>>, <<1,2,1,2>>}',
               'ChainSplits': '{<<"A","A","A","A">>, <<"A","A","B","B">>}',
               'DomKinds': '{"molecule", "chain", "regions"}',
-              'TabRegions': '{<<<<1, 2>>, <<4, 3>>>>, <<<<1, 2>>, <<2, 3>>>>, <<<<3, 2>>, <<1, 4>>>>}'},
+              'TabRegions': '{<<<<1, 2>>, <<4, 3>>>>, <<<<3, 2>>, <<1, 2>>>>}'},
     'thorough': {'NB': '5', 'Spacing': '250', 'Ups': '{300, 500, 800, 1000}', 'Rmds': '0..3', 'Minfs': '{0, 500000000}',
                  'Base': '500000000',
                  'Partitions': '{<<1,2,3,4,5>>, <<1,1,2,3,3>>, <<1,2,2,3,4>>, <<1,2,1,2,3>>, <<1,1,1,2,2>>}',
@@ -614,7 +614,8 @@ def make_system(rng):
     nopos (unselected atoms without position), empty (nothing selected)."""
     for _ in range(100):
         first = make_scenario(rng, 'mixed')
-        if first['selector']['kind'] in ('names', 'backbone') and any(not a['sel'] for a in first['atoms']):
+        if first['selector']['kind'] in ('names', 'backbone') and any(not a['sel'] for a in first['atoms']) \
+                and sum(1 for a in first['atoms'] if a['sel']) >= 2:
             break
     given_rmd = rng.random() < 0.3
     given_bt = rng.random() < 0.3
@@ -666,7 +667,8 @@ def make_system(rng):
                 mols.append(sc)
                 break
         else:
-            raise tlc.MachineryError('generator cannot fit a molecule of role %s to the shared processor' % role)
+            if not mols:
+                raise tlc.MachineryError('generator cannot fit a molecule of role %s to the shared processor' % role)
     return {'fam': 'hist', 'mols': mols, 'calls': rng.choice([1, 2, 2])}
 
 
@@ -746,10 +748,16 @@ def summarise(shard):
 
 
 def _trace_chunk(args):
-    """Pool worker: generate, run AND judge its share of the random families; return the summary only."""
-    jobs, seed = args
+    """Pool worker: replay its share of the TAB rows, generate and run its share of the random families, and have ONE TLC process
+    judge all of that; return the summaries only."""
+    jobs, seed = args[0], args[1]
     rng = random.Random(seed)
     shard = []
+    replayed = None
+    if len(args) > 2 and args[2] is not None:
+        replayed = list(_replay_chunk((args[2], seed + 1, 'collect', args[3])))
+        shard += replayed[2]
+        replayed[2] = None
     for fam in jobs:
         if fam == 'hist':
             shard += system_events(make_system(rng))
@@ -757,7 +765,7 @@ def _trace_chunk(args):
             sc = make_scenario(rng, fam)
             ev, _ = event_of(sc)
             shard.append((sc, ev))
-    return summarise(shard)
+    return replayed, summarise(shard)
 
 
 # ------------------------------------------------------------------------------------------------- TAB replay
@@ -786,6 +794,7 @@ def _replay_chunk(args):
     """Pool worker: replay its share of the TAB rows into the real processor, have TLC judge a tenth of them as recorded runs too."""
     states, seed = args[0], args[1]
     judge = args[2] if len(args) > 2 else True
+    rate = args[3] if len(args) > 3 else 0.1
     rng = random.Random(seed)
     bad, judged, n = [], [], 0
     nontrivial, sample, inhabited, hinge = [], [], 0, 0
@@ -815,11 +824,11 @@ def _replay_chunk(args):
             regs = st['m']['dom']['regions']
             if st['m']['dom']['kind'] == 'regions' and len(regs) == 2 and set(regs[0]) & set(regs[1]):
                 hinge += 1
-        if rng.random() < 0.1:
+        if rng.random() < rate:
             ev = {'fam': 'tab', 'm': model_input(sc), 'rec': {k: rec[k] for k in ('exc', 'warn', 'bonds', 'others')},
                   'twin': {'has': False, 'exc': False, 'bonds': []}}
             judged.append((sc, ev))
-    summary = summarise(judged) if judge else None
+    summary = summarise(judged) if judge is True else judged if judge == 'collect' else None
     return n, bad, summary, nontrivial, sample, inhabited, hinge
 
 
@@ -947,8 +956,17 @@ def _absorb(summary, ev, vd, hist, roles):
         ev.sample(summary['sample'], limit=4)
 
 
+def _tick(label, t0=[None]):
+    import time
+    now = time.time()
+    if os.environ.get('C15_TIMING'):
+        print('  [c15 timing] %-28s %.1fs' % (label, now - (t0[0] or now)), flush=True)
+    t0[0] = now
+
+
 def run(tier, seed, ev, vd):
     quick = tier == 'quick'
+    _tick('start')
     ev.rule = ('TAB: every combination of selection x residue partition x chain split x domain kind (region lists: disjoint, sharing a '
                'hinge residue, nested / overlapping, reversed) x separation x cut-off x minimum force x cross-link on a line of beads, '
                'replayed into the real processor. TRACE: random molecules per generator family; systems of several molecules under ONE '
@@ -983,6 +1001,7 @@ def run(tier, seed, ev, vd):
             raise tlc.MachineryError('ElasticNet model violates %s' % res.violated)
         ev.add_tlc('TAB ElasticNet %s' % {k: consts[k] for k in ('NB', 'Ups', 'Rmds', 'TabRegions')}, res)
         ev.exhaustive = True
+        _tick('TAB model')
         offsets, pos = [], 0
         with open(res.dump_path, 'rb') as fh:               # the rows stay in the file: workers read their own byte range
             for line in fh:
@@ -992,18 +1011,23 @@ def run(tier, seed, ev, vd):
         if len(offsets) != res.distinct:
             raise tlc.MachineryError('dump has %d states, TLC reports %d' % (len(offsets), res.distinct))
         offsets.append(pos)
-        per = 110 if quick else 2000
+        per = 80 if quick else 2000
         jobs = [f for f in FAMILIES for _ in range(per)] + ['hist'] * (per // 2)
         random.Random(seed).shuffle(jobs)
-        cutpoints = common.chunks(range(res.distinct), tlc.NCPU * (2 if quick else 8))
-        tasks = [('replay', ((res.dump_path, offsets[c[0]], offsets[c[-1] + 1]), seed * 1009 + i)) for i, c in enumerate(cutpoints)]
-        tasks += [('trace', (c, seed * 7919 + i)) for i, c in enumerate(common.chunks(jobs, tlc.NCPU * (1 if quick else 8)))]
+        ntasks = tlc.NCPU * (1 if quick else 6)
+        cutpoints = common.chunks(range(res.distinct), ntasks)
+        jobparts = common.chunks(jobs, ntasks)
+        tasks = []
+        for i in range(max(len(cutpoints), len(jobparts))):
+            c = cutpoints[i] if i < len(cutpoints) else None
+            tasks.append((jobparts[i] if i < len(jobparts) else [], seed * 7919 + 2 * i,
+                          (res.dump_path, offsets[c[0]], offsets[c[-1] + 1]) if c else None, 0.04 if quick else 0.05))
         hist, roles = {}, {}
         nrows = inhabited = hinge = 0
         with mp.Pool(tlc.NCPU) as pool:
-            for kind, out in pool.imap_unordered(_pool_task, tasks, chunksize=1):
-                if kind == 'replay':
-                    n, bad, summary, nontrivial, sample, inh, hng = out
+            for replayed, summary in pool.imap_unordered(_trace_chunk, tasks, chunksize=1):
+                if replayed is not None:
+                    n, bad, _, nontrivial, sample, inh, hng = replayed
                     nrows += n
                     inhabited += inh
                     hinge += hng
@@ -1015,9 +1039,8 @@ def run(tier, seed, ev, vd):
                         ev.nontrivial.add(h)
                     for smp in sample:
                         ev.sample(smp, limit=1)
-                    _absorb(summary, ev, vd, hist, roles)
-                else:
-                    _absorb(out, ev, vd, hist, roles)
+                _absorb(summary, ev, vd, hist, roles)
+        _tick('replay + traces (pool)')
         if nrows * 2 != res.distinct:
             raise tlc.MachineryError('TAB dump has %d evaluated rows for %d states' % (nrows, res.distinct))
         if not inhabited or not hinge:
@@ -1054,11 +1077,7 @@ def run(tier, seed, ev, vd):
         cli['proc'].kill()
         raise
     cli_collect(cli, tier, ev, vd)
-
-
-def _pool_task(task):
-    kind, args = task
-    return kind, (_replay_chunk(args) if kind == 'replay' else _trace_chunk(args))
+    _tick('command line (waited)')
 
 
 def _replay_cli(sc):
